@@ -34,3 +34,14 @@ package trace
 //@   props C09
 //@   requires req != nil
 //@   modifies external
+
+// construction: options choose which headers are recorded, the error handler and the logger (assumed: they do not rebind
+// the handler or the writer and do not keep the tracer under construction)
+//@ functype trace.Option
+//@   params t
+//@   modifies t.reqHeaders, t.respHeaders, t.errHandler, t.log
+//@ func New
+//@   props C09 C20
+//@   modifies nothing
+//@   ensures wired: result1 == nil ==> result0 != nil && fresh(result0) && result0.next == next && result0.writer == writer && result0.errHandler != nil
+//@   loop 1 invariant t != nil && fresh(t) && t.next == next && t.writer == writer
